@@ -1045,6 +1045,10 @@ class CallsMixin:
         r = a.copy(org=frozenset(), orth=None, uninit=False)
         if short not in ('real', 'abs', 'absolute'):
             r.items = None
+        if short == 'sign':
+            r.orth = 'signvec'      # entries in {-1, 0, +1}
+            r.lg = Lin(0)
+            r.deg = {}
         if short in ('argsort',):
             r.dt = 'i'
             r.idx = 'perm'
